@@ -617,6 +617,14 @@ def late_edit_programs():
         t.s.width = 1
         return t
 
+    def narrowed_to_the_bit_below(idx, w1, pw):
+        def mk():
+            t = h.Module(name="LateE"); t.s = h.Signal(width=8)
+            sl = t.s[idx]; t.i = leaf(pw)(p=sl); _ = sl.width
+            t.s.width = w1                       # the slice's top bit is the first one that no longer exists
+            return t
+        return mk
+
     def narrowed_inside_concat():
         t = h.Module(name="LateC"); t.s = h.Signal(width=8); t.u = h.Signal(width=2)
         sl = t.s[4:8]; _ = sl.width
@@ -631,7 +639,8 @@ def late_edit_programs():
         return t
 
     return [("late:narrowed-to-slice-width", narrowed_to_slice_width), ("late:narrowed-to-one-bit", narrowed_to_one_bit),
-            ("late:narrowed-inside-concat", narrowed_inside_concat), ("late:port-widened-after-connection", port_widened_after_connection)]
+            ("late:narrowed-inside-concat", narrowed_inside_concat), ("late:bit-4-of-four", narrowed_to_the_bit_below(4, 4, 1)),
+            ("late:bits-4-to-7-of-seven", narrowed_to_the_bit_below(slice(4, 8), 7, 4)), ("late:bit-7-of-seven", narrowed_to_the_bit_below(-1, 7, 1)), ("late:port-widened-after-connection", port_widened_after_connection)]
 
 
 def impl_late(label):
